@@ -7,8 +7,9 @@ rendered from; the outcome classes of `Parse`, `Raw` (with the value) and `FromY
 compared with what the real code did.  The part of `FromYAML` after `yamlBuildExpressions` (schema unserialization) is
 outside the model: there only "never a panic / timeout" is required.
 
-fs cases: `Arca.Model.SubWf` on the abstraction of the file system against `engine.SubworkflowCache` (class, error
-kind up to Go's map iteration order, key set of the merged cache) and against `engine.Parse` (class).
+fs cases: `Arca.Model.SubWf` on the abstraction of the file system against `engine.SubworkflowCache` (class, error kind
+up to Go's map iteration order, key set of the merged cache) and against `engine.Parse` with the cache of the CLI and
+with an in-memory cache whose copies differ from the context directory (class, error kind up to iteration order).
 -/
 import Arca.Driver.Codec
 import Arca.Model.Yaml
@@ -201,23 +202,59 @@ def decFile (j : Json) : FileContent :=
 def errName : Err → String
   | .noWorkflowFile => "noroot" | .missing => "missing" | .invalid => "invalid" | .cycle => "cycle"
 
-/-- every failure ("panic" or an error kind) some iteration order of the Go maps could hit first (driver-side only;
-    the proven model is `subworkflowCache`, which follows the list order) -/
-partial def failKinds (norm : String → String) (fs : FS) (steps : List Step) (chain : List String) : List String :=
+/-- every failure (an error kind) some iteration order of the Go maps could hit first in the discovery (driver-side
+    only; the proven model is `subworkflowCache`, which follows the list order).  The supplied paths are followed before
+    anything is loaded: if one of them fails, the loader is not reached. -/
+partial def failKinds (norm : String → String) (fs : FS) (sup : Supplied) (steps : List Step) (chain : List String) :
+    List String :=
   let paths := stepWorkflowPaths steps
-  if paths.isEmpty then []
-  else if !(allPresent norm fs paths) then ["missing"]
-  else paths.flatMap (fun p =>
+  let supKinds := paths.flatMap (fun p =>
+    match supLookup sup p with
+    | none => []
+    | some c =>
+      if chain.contains p then ["cycle"]
+      else match c with
+        | .invalid => ["invalid"]
+        | .wf sub => failKinds norm fs sup sub (chain ++ [p]))
+  if !supKinds.isEmpty then supKinds else
+  let rest := paths.filter (fun p => (supLookup sup p).isNone)
+  if rest.isEmpty then []
+  else if !(allPresent norm fs rest) then ["missing"]
+  else rest.flatMap (fun p =>
     if chain.contains (norm p) then ["cycle"]
     else match lookup fs (norm p) with
       | none => ["missing"]
       | some .invalid => ["invalid"]
-      | some (.wf sub) => failKinds norm fs sub (chain ++ [norm p]))
+      | some (.wf sub) => failKinds norm fs sup sub (chain ++ [norm p]))
+
+/-- the same for `checkSubworkflowCycles` -/
+partial def checkFailKinds (ctx : FS) (steps : List Step) (chain : List String) : List String :=
+  (stepWorkflowPaths steps).flatMap (fun p =>
+    if chain.contains p then ["cycle"]
+    else match lookup ctx p with
+      | none => []
+      | some .invalid => ["invalid"]
+      | some (.wf sub) => checkFailKinds ctx sub (chain ++ [p]))
+
+/-- the failure kinds `engine.Parse` may report for the caller's cache `files`, in any iteration order -/
+def parseFailKinds (norm : String → String) (fs files : FS) (root : String) : List String :=
+  match lookup files root with
+  | none => ["noroot"]
+  | some .invalid => ["invalid"]
+  | some (.wf steps) =>
+    let adm := (failKinds norm fs (some files) steps []).eraseDups
+    if !adm.isEmpty then adm else
+    match subworkflowCache norm fs (some files) steps [] [] with
+    | .ok keys => (checkFailKinds (mergedContents norm fs files keys) steps []).eraseDups
+    | _ => []
 
 def sortDedup (l : List String) : List String :=
   (l.eraseDups.toArray.qsort (· < ·)).toList
 
 def strArr (l : List String) : Json := .arr (l.map Json.str).toArray
+
+def strMapOf (j : Json) : List (String × String) :=
+  (objFields j).filterMap (fun p => match p.2 with | .str s => some (p.1, s) | _ => none)
 
 /-- ok | panic | the error kind -/
 def outcomeName {α : Type} : Outcome α → String
@@ -231,28 +268,33 @@ def observedName (o : Json) : String :=
   | "err" => getStr o "err_kind"
   | c => c
 
+/-- the name of a file of the context directory as the Go code holds it in the chain: its absolute path.  (A cache key
+    is the string written in the workflow; only an absolute key can coincide with such a name.) -/
+def fsName (n : String) : String := if n.startsWith "<dir>" then n else "<dir>/" ++ n
+
 def runFsCase (c : Json) : String × Json := Id.run do
   if !(c.getObjVal? "skip" matches .error _) then return ("skip", .str "harness skipped")
   let root := getStr c "root"
-  let fs : FS := (objFields (getObj c "observed_abs")).map (fun p => (p.1, decFile p.2))
+  let absOf : List (String × FileContent) := (objFields (getObj c "observed_abs")).map (fun p => (p.1, decFile p.2))
+  let fs : FS := absOf.map (fun p => (fsName p.1, p.2))
   let normT : List (String × String) := (objFields (getObj c "norm")).filterMap (fun p =>
     match p.2 with
     | .str s => some (p.1, s)
     | _ => none)
-  let norm : String → String := fun p => (Arca.Model.lookup p normT).getD p
+  let norm : String → String := fun p => fsName ((Arca.Model.lookup p normT).getD p)
   let mut bad : List String := []
   -- the model has no file on which FromYAML panics (compileExpression recovers the expression parser's panics)
   for p in objFields (getObj c "observed_abs") do
     if getBool p.2 "panics" then bad := bad ++ [s!"FromYAML panicked on file {p.1}: outside the model"]
   if !(getBool c "abs_ok") then bad := bad ++ ["FromYAML does not see the files the way the generator intended (abstraction mismatch)"]
-  -- (2) SubworkflowCache alone
+  -- (2) SubworkflowCache alone (no supplied files)
   let oSub := observedName (getObj c "subcache")
   let (mSub, mFiles, adm) : String × List String × List String :=
-    match lookup fs root with
+    match lookup fs (fsName root) with
     | none => ("noroot", [], ["noroot"])
     | some .invalid => ("invalid", [], ["invalid"])
     | some (.wf steps) =>
-      let adm := (failKinds norm fs steps []).eraseDups
+      let adm := (failKinds norm fs none steps []).eraseDups
       match subworkflowCacheTop norm fs steps with
       | .ok files => ("ok", sortDedup files, adm)
       | r => (outcomeName r, [], adm)
@@ -265,17 +307,32 @@ def runFsCase (c : Json) : String × Json := Id.run do
   else
     if !(adm.contains mSub) then bad := bad ++ [s!"model outcome {mSub} is not among the admissible ones {adm}"]
     if !(adm.contains oSub) then bad := bad ++ [s!"SubworkflowCache: impl {oSub}, admissible {adm} (model, list order: {mSub})"]
-  -- (1) engine.Parse
-  let oParse := observedName (getObj c "parse")
-  let mParse := parseFiles norm fs root
-  match mParse with
-  | .ok files =>
-    -- preparation (outside this model) may still reject the workflow, but not for a missing file or a cycle
-    if !(oParse == "ok" || oParse == "later" || oParse == "invalid") then bad := bad ++ [s!"Parse: impl {oParse}, model ok"]
-    if !(files.contains root) then bad := bad ++ ["model: root not in the merged cache"]
-  | _ =>
-    if !(adm.contains oParse) then bad := bad ++ [s!"Parse: impl {oParse}, admissible {adm} (model, list order: {outcomeName mParse})"]
-  let detail := [("model", Json.mkObj [("outcome", mSub), ("files", strArr mFiles), ("admissible", strArr adm)])]
+  -- (1) engine.Parse with the cache of the CLI (the root alone, as it is on disk), (3) with an in-memory cache that
+  -- holds every file, some with the text of another one; the caller's cache is what discovery is handed as `supplied`
+  let cliCache := contextCache norm fs root
+  let swapped := strMapOf (getObj (getObj c "parse_mem") "swapped")
+  let memCache : FS := absOf.map (fun p =>
+    (p.1, ((Arca.Model.lookup p.1 swapped).bind (fun src => lookup absOf src)).getD p.2))
+  let mut parses : List (String × FS × Json) := [("Parse", cliCache, getObj c "parse")]
+  if !(getObj c "parse_mem").isNull then parses := parses ++ [("Parse(memory)", memCache, getObj c "parse_mem")]
+  let mut notes : List (String × Json) := []
+  for (what, files, obs) in parses do
+    let oParse := observedName obs
+    let mParse := parseFiles norm fs files root
+    let admP := parseFailKinds norm fs files root
+    notes := notes ++ [(what, Json.mkObj [("outcome", outcomeName mParse), ("admissible", strArr admP)])]
+    match mParse with
+    | .ok keys =>
+      -- preparation (outside this model) may still reject the workflow, but not for a missing file or a cycle
+      if !admP.isEmpty then bad := bad ++ [s!"{what}: model ok but some iteration order fails with {admP}"]
+      if !(oParse == "ok" || oParse == "later" || oParse == "invalid") then bad := bad ++ [s!"{what}: impl {oParse}, model ok"]
+      if !(keys.contains root) then bad := bad ++ [s!"{what}: model: root not in the merged cache"]
+    | _ =>
+      if !(admP.contains (outcomeName mParse)) then
+        bad := bad ++ [s!"{what}: model outcome {outcomeName mParse} is not among the admissible ones {admP}"]
+      if !(admP.contains oParse) then
+        bad := bad ++ [s!"{what}: impl {oParse}, admissible {admP} (model, list order: {outcomeName mParse})"]
+  let detail := [("model", Json.mkObj ([("outcome", Json.str mSub), ("files", strArr mFiles), ("admissible", strArr adm)] ++ notes))]
   if bad.isEmpty then return ("ok", Json.mkObj detail)
   else return ("diff", Json.mkObj (detail ++ [("disagreements", strArr bad)]))
 
